@@ -69,6 +69,14 @@ def runOp (st : St) (op : List String) : Option St :=
       some (emit { st with w := step st.w (.crashSave s (nameBytes sid) t d k j T), names := insertSorted sid st.names }
         ("w=" ++ writeLog (saveWrites t d) k j))
     | _, _, _, _, _, _ => none
+  | ["ksave", sid, t, h, k, j, s, mask] =>
+    if !goodName sid || sid.length < 4 then none else
+    match t.toInt?, parseHex h, k.toNat?, j.toNat?, s.toNat?, parseMask mask with
+    | some t, some d, some k, some j, some s, some T =>
+      if s == 0 then none else
+      some (emit { st with w := step st.w (.crashSave s (nameBytes sid) t d k j T), names := insertSorted sid st.names }
+        "w=killed")
+    | _, _, _, _, _, _ => none
   | ["load", sid] =>
     if !goodName sid || sid.length < 4 then none else
     let r := (load st.w.now (nameBytes sid) st.w.dir).1
